@@ -928,6 +928,64 @@ def multi_process_programs(ctx):
         ctx.case(('two-process-program', len(ref) // 20), sample={'two_process_program': [clip(e, 100) for e in ref[:5]], 'seed': seed} if i == 0 else None, n=len(ref))
         ctx.extra['two_process_programs'] = ctx.extra.get('two_process_programs', 0) + 1
 
+def conc_transcripts(ctx, cfg, backend, seed, nproc, iters):
+    """nproc processes run AT THE SAME TIME on one token, each creating / relabelling / reading back / destroying only its OWN token objects (so what each process sees of its own
+    objects cannot depend on the interleaving) -> per-process transcripts, which must be the same whatever the configuration"""
+    ck = ctx.ck; d = ctx.dir(f'c20-conc-{cfg}-{backend}-{seed}'); X = []; out = []
+    try:
+        x = ctx.new_exec(cfg, d, backend); assert x.call('C_Initialize', locking='os')['rv'] == 0
+        slot = x.call('C_GetSlotList', count=8)['slots'][-1]; assert x.call('C_InitToken', slot=slot, pin=MP_SO.hex(), label=b'c20cc'.hex())['rv'] == 0
+        s = x.call('C_OpenSession', slot=slot)['h']; assert x.call('C_Login', s=s, user=0, pin=MP_SO.hex())['rv'] == 0 and x.call('C_InitPIN', s=s, pin=MP_US.hex())['rv'] == 0
+        x.call('C_Finalize'); x.close(); S = []; scripts = []
+        for p in range(nproc):
+            y = ctx.new_exec(cfg, d, backend, reuse_dir=True); y.timeout = 600; X.append(y); assert y.call('C_Initialize', locking='os')['rv'] == 0
+            sl = [q for q in y.call('C_GetSlotList', count=8)['slots'] if y.call('C_GetTokenInfo', slot=q)['flags'] & ck.CKF_TOKEN_INITIALIZED][0]
+            sh = y.call('C_OpenSession', slot=sl)['h']; assert y.call('C_Login', s=sh, user=1, pin=MP_US.hex())['rv'] == 0; S.append(sh)
+            rnd = random.Random(seed * 31 + p); Sx = []
+            for it in range(iters):
+                lab = b'p%d-o%d' % (p, it); val = b'value-%d-%d-' % (p, it) + bytes([65 + it % 26]) * 10
+                c = len(Sx); Sx.append({'fn': 'C_CreateObject', 's': sh, 'tmpl': y.T({'CKA_CLASS': ck.CKO_DATA, 'CKA_TOKEN': True, 'CKA_PRIVATE': bool(it % 2), 'CKA_LABEL': lab, 'CKA_APPLICATION': b'app-%d' % p, 'CKA_VALUE': val})})
+                Sx.append({'fn': 'C_SetAttributeValue', 's': sh, 'o': '$%d.h' % c, 'tmpl': y.T({'CKA_LABEL': lab + b'-relabelled'})})
+                Sx.append({'fn': 'C_GetAttributeValue', 's': sh, 'o': '$%d.h' % c, 'tmpl': [{'t': ck.CKA_LABEL, 'buf': 64}, {'t': ck.CKA_APPLICATION, 'buf': 64}, {'t': ck.CKA_VALUE, 'buf': 64}]})
+                if it % 3 == 0: Sx.append({'fn': 'C_DestroyObject', 's': sh, 'o': '$%d.h' % c})
+                # (no search: C_FindObjectsInit walks over the other processes' objects too, also half-built ones, so its answer is not a function of this process's own history)
+            scripts.append(Sx)
+        for p, y in enumerate(X): y.send({'fn': 'threads', 'scripts': [scripts[p]], 'timeout': 600})
+        res = [y.recv(600)['results'][0] for y in X]; overlap = 0
+        for p in range(nproc):
+            t = []
+            for q, st in zip(scripts[p], res[p]):
+                e = (q['fn'], ck.rv(st['rv']))
+                if q['fn'] == 'C_GetAttributeValue': e += tuple((a.get('data') or '') for a in st.get('tmpl', []))
+                if q['fn'] == 'C_FindObjects': e += (st.get('n'),)
+                t.append(e)
+            out.append(t)
+        spans = [(min(st['ns_call'] for st in r), max(st['ns_ret'] for st in r)) for r in res]
+        overlap = sum(1 for a in range(nproc) for b in range(a + 1, nproc) if spans[a][0] < spans[b][1] and spans[b][0] < spans[a][1])
+        for y in X: y.call('C_Finalize'); y.close()
+        X = []
+    finally:
+        for y in X: y.kill()
+    return out, overlap
+
+def concurrent_programs(ctx):
+    cfgs = ctx.q([('asan', 'file'), ('asan', 'db')], CONFIGS)
+    for i in range(ctx.q(3, 12)):
+        seed = ctx.seed * 104729 + i; nproc = 3 + i % 2; trs = {}; ov = {}
+        try:
+            for c in cfgs: trs[c], ov[c] = conc_transcripts(ctx, c[0], c[1], seed, nproc, ctx.q(30, 60))
+        except (AssertionError, Died, Hang) as e: ctx.inconc(f'concurrent program {seed} could not be run: {e!r}'[:300]); continue
+        ref = trs[cfgs[0]]
+        for c in cfgs[1:]:
+            for p in range(nproc):
+                if trs[c][p] != ref[p]:
+                    k = next((j for j, (a, b) in enumerate(zip(ref[p], trs[c][p])) if a != b), 0); a = ref[p][k]; b = trs[c][p][k]
+                    dim = 'file~db' if c[0] == cfgs[0][0] else 'openssl~botan' if c[1] == cfgs[0][1] else 'openssl/file~botan/db'
+                    ctx.violation(f'concurrent-own-objects-program|{a[0]}|{dim}|differ', 'processes that run at the same time on one token, each using only its own token objects, get different answers depending on the configuration',
+                                  {'seed': seed, 'processes': nproc, 'process': p, 'step': k, cfgs[0][0] + '/' + cfgs[0][1]: clip(a, 300), c[0] + '/' + c[1]: clip(b, 300)}); break
+        n = sum(len(t) for t in ref); ctx.case(('concurrent-program', nproc, min(ov.values()) > 0), nontrivial=min(ov.values()) > 0, sample={'concurrent_program': {'processes': nproc, 'steps': n, 'overlapping_process_pairs': ov[cfgs[-1]]}} if i == 0 else None, n=n)
+        ctx.extra['concurrent_programs'] = ctx.extra.get('concurrent_programs', 0) + 1
+
 def run(ctx):
     ctx.rule = ('one program = a seeded sequence of units (object management: create/copy/set/destroy/find/get-attribute on all classes; crypto: digests, AES/DES3 modes, HMAC/CMAC, RSA/ECDSA/EdDSA/DSA sign+verify, '
                 'RSA encryption, wrap/unwrap, derive, key generation; every unit in one of the size-query / small-buffer / one-shot / multi-part shapes) executed in lock-step on OpenSSL/file, OpenSSL/db, Botan/file, Botan/db '
@@ -954,7 +1012,7 @@ def run(ctx):
     if not ctx.replay: jobs.append(dict(env=env, sweep_seed=ctx.seed, directed=['nested_restart']))
     random.Random(ctx.seed).shuffle(jobs)
     for part in pmap(worker, jobs, ctx.nproc): ctx.merge(part)
-    if not ctx.replay: multi_process_programs(ctx)
+    if not ctx.replay: multi_process_programs(ctx); concurrent_programs(ctx)
     d = {k[5:]: v for k, v in ctx.extra.items() if k.startswith('unit:')}
     for k in list(ctx.extra):
         if k.startswith('unit:'): del ctx.extra[k]
